@@ -48,11 +48,15 @@ func (config *CacheConfig) Verify() error {
 func (config *CacheConfig) getChunkConfig() immunityChunkConfig {
 	numChunks := core.MaxUint32(config.NumChunks, 1)
 
+	// The integer divisions below can yield 0 for configurations accepted by Verify()
+	// (e.g. NumItemsToPreemptivelyEvict < NumChunks). A chunk with a zero limit is always "full",
+	// and a chunk with a zero eviction step can never evict, thus never admits again once full.
+	// Therefore, each per-chunk value is at least 1.
 	return immunityChunkConfig{
 		cacheName:                   config.Name,
-		maxNumItems:                 config.MaxNumItems / numChunks,
-		maxNumBytes:                 config.MaxNumBytes / numChunks,
-		numItemsToPreemptivelyEvict: config.NumItemsToPreemptivelyEvict / numChunks,
+		maxNumItems:                 core.MaxUint32(config.MaxNumItems/numChunks, 1),
+		maxNumBytes:                 core.MaxUint32(config.MaxNumBytes/numChunks, 1),
+		numItemsToPreemptivelyEvict: core.MaxUint32(config.NumItemsToPreemptivelyEvict/numChunks, 1),
 	}
 }
 
